@@ -54,6 +54,9 @@ pub(crate) struct FilesEntryIterator {
 
     /// Options to configure behavior when reading from table files.
     read_options: ReadOptions,
+
+    /// The error that made `next` or `prev` stop early, if there was one.
+    iteration_error: Option<RainDBError>,
 }
 
 /// Crate-only methods
@@ -70,6 +73,7 @@ impl FilesEntryIterator {
             current_table_iter: None,
             table_cache,
             read_options,
+            iteration_error: None,
         }
     }
 }
@@ -149,6 +153,16 @@ impl RainDbIterator for FilesEntryIterator {
 
     type Error = RainDBError;
 
+    fn take_error(&mut self) -> Option<Self::Error> {
+        if self.iteration_error.is_some() {
+            return self.iteration_error.take();
+        }
+
+        self.current_table_iter
+            .as_mut()
+            .and_then(|table_iter| table_iter.take_error())
+    }
+
     fn is_valid(&self) -> bool {
         self.current_table_iter.is_some() && self.current_table_iter.as_ref().unwrap().is_valid()
     }
@@ -208,6 +222,7 @@ impl RainDbIterator for FilesEntryIterator {
                     "There was an error skipping forward. Original error: {}",
                     error
                 );
+                self.iteration_error = Some(error);
                 return None;
             }
         }
@@ -230,6 +245,7 @@ impl RainDbIterator for FilesEntryIterator {
                     "There was an error skipping backward. Original error: {}",
                     error
                 );
+                self.iteration_error = Some(error);
                 return None;
             }
         }
@@ -321,6 +337,14 @@ impl MergingIterator {
         for maybe_error in self.errors.iter_mut() {
             if maybe_error.is_some() {
                 return maybe_error.take();
+            }
+        }
+
+        // Errors that made a child stop early while it was being stepped
+        for child in self.iterators.iter_mut() {
+            let maybe_error = child.take_error();
+            if maybe_error.is_some() {
+                return maybe_error;
             }
         }
 
